@@ -234,7 +234,7 @@ pub fn run(ctx: &Ctx) -> CheckResult {
             continue;
         }
         let mut rng = Rng::new(rng::mix(ctx.seed, &item.id, 102));
-        let n = if quick { 1 } else { 6 };
+        let n = if quick { 2 } else { 6 };
         for k in 0..n {
             let mask = if k == 0 { 0 } else { rng.below(32) as u32 };
             let width = if k == 0 { None } else { Some(rng.range(1, 200) as u32) };
